@@ -277,6 +277,8 @@ fn apply_corr<T: Mutate>(p: &Parts<T>, c: &Corr) -> Option<Parts<T>> {
 /// is spent into `outs` plain outputs; or a plain output is moved on.
 #[derive(Clone, Debug)]
 enum Spend {
+	/// the genesis output (leaf 0 of the output MMR) into one plain output
+	Genesis { height: u32, to_key: u32 },
 	Cb { height: u32, cb: u32, outs: u32 },
 	Plain { height: u32, from_key: u32, from_val: u64, to_key: u32 },
 }
@@ -312,6 +314,7 @@ struct Variant {
 impl Spend {
 	fn height(&self) -> u32 {
 		match self {
+			Spend::Genesis { height, .. } => *height,
 			Spend::Cb { height, .. } => *height,
 			Spend::Plain { height, .. } => *height,
 		}
@@ -358,6 +361,9 @@ fn spends_compacted() -> Vec<Spend> {
 	for (h, k) in [(8u32, 1u32), (9, 2), (10, 3), (12, 5), (60, 33), (61, 34), (62, 50), (66, 51), (69, 60)] {
 		comp.push(cb(h, k, 1));
 	}
+	// the genesis output too: leaves 0 and 1 are both spent and compacted, so the served segment 0
+	// starts with the hash of their parent and the receiver has to drop its own genesis leaf
+	comp.push(Spend::Genesis { height: 11, to_key: 2003 });
 	comp.push(Spend::Plain { height: 65, from_key: plain_key(17, 0), from_val: plain_vals(1)[0], to_key: 2001 });
 	for (h, k) in [(72u32, 4u32), (75, 61), (91, 70), (92, 6)] {
 		comp.push(cb(h, k, 1));
@@ -584,6 +590,16 @@ fn build_uni_checked(sc: &uni::Scratch, variant: &Variant) -> Result<Uni, String
 					commits.pop();
 					commits.push(uni::commit_of(&kc, to.last().unwrap().0, to.last().unwrap().1));
 					txs.push(uni::spend_coinbase(&kc, *cb, cbv, &to, txid));
+					txid += 1;
+				}
+				Spend::Genesis { height, to_key } if *height == h => {
+					use grin_core::libtx::{build, ProofBuilder};
+					use grin_keychain::{ExtKeychain, Keychain};
+					let pb = ProofBuilder::new(&kc);
+					let gid = ExtKeychain::derive_key_id(0, 1, 0, 0, 0);
+					commits.push(uni::commit_of(&kc, *to_key, REWARD - M));
+					let t = uni::tx(&kc, grin_core::core::KernelFeatures::Plain { fee: (M as u32).into() }, &[build::coinbase_input(REWARD, gid), build::output(REWARD - M, uni::kid(*to_key))], &pb, txid).expect("genesis spend");
+					txs.push(t);
 					txid += 1;
 				}
 				Spend::Plain { height, from_key, from_val, to_key } if *height == h => {
@@ -2261,7 +2277,7 @@ fn variant_counts(v: &Variant, heights: (u8, u8, u8, u8)) -> [usize; 4] {
 			n_ker += 1;
 			n_out += match s {
 				Spend::Cb { outs, .. } => *outs as u64,
-				Spend::Plain { .. } => 1,
+				Spend::Plain { .. } | Spend::Genesis { .. } => 1,
 			};
 		}
 	}
